@@ -465,10 +465,17 @@ def units(tier, seed):
         out.append(("named", {"names": [nm], "per": 3 if q else 40}))
     out.append(("secp112r2", {"count": 3 if q else 20}))
     out.append(("registry", {}))
+    out.append(("faults", {"jobset": 'keys', "arg": 'NIST192p', "examples": 40 if tier == "quick" else 1500, "triples": 400 if tier == "quick" else 20000}))
+    out.append(("faults", {"jobset": 'keys', "arg": 'NIST224p', "examples": 40 if tier == "quick" else 1500, "triples": 400 if tier == "quick" else 20000}))
+    out.append(("faults", {"jobset": 'keys', "arg": 't23a', "examples": 40 if tier == "quick" else 1500, "triples": 400 if tier == "quick" else 20000}))
     return out
 
 
 def run_unit(ctx, name, **kw):
+    if name == "faults":
+        from . import faults
+        faults.run_set(ctx, **kw)
+        return
     if name == "toy1":
         toy1_sweep(ctx, kw["curve"], kw["part"], kw["nparts"], kw["prefixes"])
         d = gen.dom(kw["curve"])
@@ -493,6 +500,10 @@ def run_unit(ctx, name, **kw):
 
 
 def replay(ctx, case):
+    if case.get("kind") == "fault-history":
+        from . import faults
+        faults.replay(ctx, case)
+        return
     if case.get("kind") == "registry":
         from .c09 import check_registry
         check_registry(ctx)
